@@ -2014,9 +2014,9 @@ class Statements(Sequence, Immutable):
         elif statements is None:
             statements = ()
         elif isinstance(statements, Iterable):
+            statements = tuple(statements)
             if any(not isinstance(s, Statement) for s in statements):
                 raise TypeError('`statements` must consist of only type Statement')
-            statements = tuple(statements)
         else:
             raise TypeError(
                 f'`statements` must be of type Statements or an iterable of Statement: got `{type(statements)}`'
